@@ -588,7 +588,11 @@ class SF(RealFraction):
         return s.__index__() // o
 
     __rfloordiv__ = __rmod__ = __divmod__ = __rdivmod__ = _nope
-    __ceil__ = as_integer_ratio = __reduce__ = __copy__ = __deepcopy__ = _nope
+    def __ceil__(s):
+        k = s.__floor__()
+        return k if cur().branch(s.e == k) else k + 1
+
+    as_integer_ratio = __reduce__ = __copy__ = __deepcopy__ = _nope
     __rpow__ = _nope
 
     @property
